@@ -1,6 +1,7 @@
 (* C36 — Metrics exposition is always valid and faithful. *)
+From Coq Require Import String.
 From Coq Require Import List ZArith Bool.
-Require Import MTX.Model.C36_Metrics MTX.Proofs.C36_Metrics.
+Require Import MTX.Lib.IntWrap MTX.Model.C36_Metrics MTX.Proofs.C36_Metrics MTX.Model.C36_Sections MTX.Proofs.C36_Sections.
 Import ListNotations.
 Local Open Scope Z_scope.
 
@@ -38,3 +39,100 @@ Proof.
   - constructor; [|constructor]. split; [discriminate|reflexivity].
   - vm_compute. intros [H|[H|[H|[]]]]; discriminate.
 Qed.
+
+(* ======================= the whole handler: sections, filters, every entity kind ======================= *)
+
+(* `body_of st q` is the body onMetrics writes (Model/C36_Sections.v: section logic + the table of metric names, label
+   keys and entity fields of the thirteen kinds; tied to the real handler byte for byte on every run) when the servers
+   hold the entities `st` and the URL query is `q`. `expected_samples st q` is the declarative reading: for each
+   selected kind, one sample per entity passing the kind's filters and per metric of the kind, labels = the entity's
+   fields, value = the entity's counter; for a selected kind without entities and without filter, its names with 0.
+   For ALL entity sets (any strings in any field, any counters, any float tokens), and ALL queries: the body parses
+   back to exactly those samples. `wf_state`: the float tokens (strconv.FormatFloat output, an oracle) are non-empty
+   and contain no newline. *)
+Theorem C36_faithful : forall st q, wf_state st -> parse (body_of st q) = Some (expected_samples st q).
+Proof. exact faithful. Qed.
+Print Assumptions C36_faithful.
+
+(* the declarative reading as a membership statement: where every expected sample comes from *)
+Theorem C36_expected_iff : forall st q s,
+  In s (expected_samples st q) <->
+  exists k, sec_on q k = true /\
+    ((exists l e, entities st k = Ents l /\ In e l /\ passes q k e = true /\ In s (entity_samples k e))
+     \/ (entities st k = Ents [] /\ zero_ok q k = true /\ exists n, In n (zero_names k) /\ s = zero_sample n)).
+Proof. exact expected_iff. Qed.
+Print Assumptions C36_expected_iff.
+
+(* no sample of an entity that does not pass the active filter: every labelled sample a consumer reads from the body
+   is a sample of an existing entity, of a kind selected by the query, that passes every filter of its kind *)
+Theorem C36_filter_sound : forall st q ss, wf_state st -> parse (body_of st q) = Some ss ->
+  forall s, In s ss -> s_tags s <> None ->
+  exists k l e, sec_on q k = true /\ entities st k = Ents l /\ In e l /\ passes q k e = true /\ In s (entity_samples k e).
+Proof. exact filter_sound. Qed.
+Print Assumptions C36_filter_sound.
+
+(* … read on the labels: with ?param=v every labelled sample carries v under the label fed by the filtered field *)
+Theorem C36_filter_label : forall st q ss, wf_state st -> parse (body_of st q) = Some ss ->
+  forall s ls, In s ss -> s_tags s = Some ls ->
+  exists k, sec_on q k = true /\
+    forall param field key, In (param, field) (k_filters (spec k)) -> filter_key k field = Some key ->
+                            qget q param <> [] -> In (key, qget q param) ls.
+Proof. exact filter_label. Qed.
+Print Assumptions C36_filter_label.
+
+(* the samples without labels are the zero lines of a selected kind that has no entity and no filter of its own *)
+Theorem C36_zero_sound : forall st q ss, wf_state st -> parse (body_of st q) = Some ss ->
+  forall s, In s ss -> s_tags s = None ->
+  exists k, sec_on q k = true /\ entities st k = Ents [] /\ own_filter q k = false /\ In (s_name s) (zero_names k) /\ s_value s = [48].
+Proof. exact zero_sound. Qed.
+Print Assumptions C36_zero_sound.
+
+(* labels of a sample = the entity's label fields; a counter below 2^63 reads back from its sample value *)
+Theorem C36_entity_labels : forall k e s, In s (entity_samples k e) ->
+  exists ls, s_tags s = Some ls /\ forall key src, In (key, src) (k_labels (spec k)) -> In (key, label_value e src) ls.
+Proof. exact entity_sample_labels. Qed.
+Print Assumptions C36_entity_labels.
+
+Theorem C36_counter_reads_back : forall v, 0 <= v < two63 -> parse_int (format_int (wrap64 v)) = Some v.
+Proof. exact counter_value_reads_back. Qed.
+Print Assumptions C36_counter_reads_back.
+
+(* ---- non-vacuity: a state with hostile strings, two paths, a forward destination, an RTSP session with float
+   fields, an HLS server without muxers; queries with and without filters ---- *)
+Definition ex_path (name : bytes) (ready inb : Z) (readers : list bytes) : entity :=
+  {| e_str := [(bs "Name", name)]; e_num := [(bs "Ready", ready); (bs "InboundBytes", inb)]; e_flt := []; e_readers := readers |}.
+Definition ex_witness : bytes := [97; 34; 125; 32; 49; 10; 120; 123; 121; 61; 34].        (* a"} 1\nx{y=" *)
+Definition ex_st : state :=
+  mk_state (Some [ex_path ex_witness 1 7 [bs "rtspSession"; bs "hlsSession"; bs "rtspSession"]; ex_path (bs "cam") 0 9 []])
+           [(ex_witness, Some [ {| e_str := [(bs "ID", bs "f1"); (bs "Protocol", bs "srt"); (bs "State", bs "idle")];
+                                   e_num := [(bs "OutboundBytes", 5)]; e_flt := []; e_readers := [] |} ])]
+           [(KHlsMuxers, Listed []);
+            (KRtspSessions, Listed [ {| e_str := [(bs "ID", bs "s1"); (bs "State", bs "read"); (bs "Path", bs "cam"); (bs "RemoteAddr", bs "[::1]:5")];
+                                        e_num := [(bs "InboundBytes", 3)];
+                                        e_flt := [(bs "InboundRTPPacketsJitter", bs "0.25"); (bs "RTPPacketsJitter", bs "0")];
+                                        e_readers := [] |} ])].
+
+Example C36_example_wf : wf_state ex_st.
+Proof. apply wf_stateb_wf. vm_compute. reflexivity. Qed.
+
+(* ?type=paths&path=<witness>: only the path with the hostile name, its readers counted per type in string order *)
+Definition S (n : string) (tags : option (list label)) (v : string) : sample := {| s_name := bs n; s_tags := tags; s_value := bs v |}.
+Definition r (ty : string) : option (list label) := Some [(bs "name", ex_witness); (bs "readerType", bs ty); (bs "state", bs "ready")].
+Example C36_example_filter :
+  let q := [(bs "type", bs "paths"); (bs "path", ex_witness)] in
+  let t := Some [(bs "name", ex_witness); (bs "state", bs "ready")] in
+  parse (body_of ex_st q)
+  = Some [ S "paths" t "1"; S "paths_readers" (r "hlsSession") "1"; S "paths_readers" (r "rtspSession") "2";
+           S "paths_inbound_bytes" t "7"; S "paths_outbound_bytes" t "0"; S "paths_inbound_frames_in_error" t "0";
+           S "paths_bytes_received" t "0"; S "paths_bytes_sent" t "0" ].
+Proof. vm_compute. reflexivity. Qed.
+
+(* no query: every kind that exists; the HLS muxers (none) give zero lines, the absent servers nothing *)
+Example C36_example_all :
+  map (fun s => (s_name s, s_value s)) (filter (fun s => match s_tags s with None => true | _ => false end) (expected_samples ex_st []))
+  = map (fun n => (bs n, bs "0")) ["hls_muxers"; "hls_muxers_outbound_bytes"; "hls_muxers_outbound_frames_discarded"; "hls_muxers_bytes_sent"]%string
+  /\ Z.of_nat (length (expected_samples ex_st [])) = 8 + 7 + 2 + 4 + 23
+  /\ expected_samples ex_st [(bs "rtsp_session", bs "nope")] = []
+  /\ Z.of_nat (length (expected_samples ex_st [(bs "forward_dest", bs "f1")])) = 2
+  /\ expected_samples ex_st [(bs "type", bs "forward_dests"); (bs "path", bs "cam")] = [].
+Proof. vm_compute. repeat split; reflexivity. Qed.
